@@ -3,3 +3,5 @@ import MW.Props.C10
 #print axioms MW.Props.C10.halted_blocks
 #print axioms MW.Props.C10.breaker_frame
 #print axioms MW.Props.C10.resume_exact
+#print axioms MW.Props.C10.halted_tx_without_effect
+#print axioms MW.Props.C10.halted_hook_without_effect
